@@ -44,20 +44,51 @@ def _param_loop(f: Func) -> Optional[ast.For]:
     return None
 
 
+def _loop_vars(loop: ast.For) -> Tuple[Optional[str], Optional[str]]:
+    """(index variable, name variable) of `for (idx, (name, param)) in enumerate(sig.parameters.items())`"""
+    t = loop.target
+    idx = name = None
+    if isinstance(t, ast.Tuple) and len(t.elts) == 2:
+        if isinstance(t.elts[0], ast.Name) and isinstance(t.elts[1], ast.Tuple) and t.elts[1].elts and isinstance(t.elts[1].elts[0], ast.Name):
+            idx, name = t.elts[0].id, t.elts[1].elts[0].id
+        elif isinstance(t.elts[0], ast.Name) and "enumerate" not in unparse(loop.iter):
+            name = t.elts[0].id
+    return idx, name
+
+
 def _sources(f: Func, loop: ast.For) -> List[str]:
-    """order of value sources tested in the loop body: positional / keyword / default"""
+    """order of value sources tested in the loop body: positional / keyword / default (recognised by structure: a
+    comparison of the enumeration index, a membership test of the parameter's own name, a test on `<param>.default`)"""
     out: List[str] = []
+    idx_var, name_var = _loop_vars(loop)
+    # plain copies of the loop variables (parameter bindings of an inlined helper: `name = n`)
+    idx_names, name_names = {idx_var}, {name_var}
+    for n_ in ast.walk(loop):
+        if isinstance(n_, ast.Assign) and len(n_.targets) == 1 and isinstance(n_.targets[0], ast.Name) and isinstance(n_.value, ast.Name):
+            if n_.value.id in name_names:
+                name_names.add(n_.targets[0].id)
+            if n_.value.id in idx_names:
+                idx_names.add(n_.targets[0].id)
 
     def walk(stmts: List[ast.stmt]) -> None:
         for st in stmts:
+            if isinstance(st, (ast.With, ast.Try)):
+                walk(st.body)
+                continue
             if isinstance(st, ast.If):
                 t = unparse(st.test)
                 kind = None
-                if isinstance(st.test, ast.Compare) and isinstance(st.test.ops[0], ast.Lt) and "idx" in t or ("<" in t and "num_args" in t):
-                    kind = "positional"
-                elif isinstance(st.test, ast.Compare) and isinstance(st.test.ops[0], ast.In) and "kwargs" in t:
-                    kind = "keyword"
-                elif "default" in t and "empty" in t:
+                c = st.test
+                if isinstance(c, ast.Compare) and len(c.ops) == 1:
+                    sides = [c.left, c.comparators[0]]
+                    if isinstance(c.ops[0], (ast.Lt, ast.LtE, ast.Gt, ast.GtE)) and idx_var and any(isinstance(x, ast.Name) and x.id in idx_names for x in sides):
+                        kind = "positional"
+                    elif isinstance(c.ops[0], (ast.Lt, ast.LtE)) and ("idx" in t or "num_args" in t):
+                        kind = "positional"
+                    elif isinstance(c.ops[0], ast.In) and isinstance(c.left, ast.Name) and (c.left.id in name_names or (name_var is None and "kwargs" in t)) \
+                            and not (isinstance(c.left, ast.Constant)):
+                        kind = "keyword"
+                if kind is None and any(isinstance(x, ast.Attribute) and x.attr == "default" for x in ast.walk(c)) and "empty" in t:
                     kind = "default"
                 if kind and kind not in out:
                     out.append(kind)
@@ -135,26 +166,34 @@ def run(ctx: Ctx) -> None:
                 _site(ctx, g, n, n.args[0])
         # ---- R3 --------------------------------------------------------------------------------
         cfg = cfg_of(f)
-        appends = [n for n in ast.walk(loop) if isinstance(n, ast.Call) and isinstance(n.func, ast.Attribute) and n.func.attr == "append"]
-        desc = "every iteration of the parameter loop appends a (name, hash) pair"
+        # the pair is recorded by `pairs.append((name, h))` or by `table[name] = h`
+        appends: List[ast.AST] = [n for n in ast.walk(loop) if isinstance(n, ast.Call) and isinstance(n.func, ast.Attribute) and n.func.attr == "append"]
+        appends += [n for n in ast.walk(loop) if isinstance(n, ast.Assign) and len(n.targets) == 1 and isinstance(n.targets[0], ast.Subscript)
+                    and isinstance(n.targets[0].value, ast.Name)]
+        desc = "every iteration of the parameter loop records a (name, hash) pair"
         loops = [x for x in cfg.nodes if x.kind == "loop" and x.ast is loop]
         tb = [x for x in cfg.nodes if x.kind == "branch" and x.ast is loop and x.label == "T"]
         app_nodes = [x for a in appends for x in cfg.nodes_of(a)]
         p = cfg.find_path(tb, loops, avoid=app_nodes) if tb and loops else None
         if not appends:
-            rep.unknown("C13.R3", f.qname, "no append in the parameter loop", f.loc(loop))
+            rep.unknown("C13.R3", f.qname, "no append / keyed store in the parameter loop", f.loc(loop))
         elif p is None:
             a0 = appends[0]
-            tup = a0.args[0] if a0.args else None
+            if isinstance(a0, ast.Call):
+                tup = a0.args[0] if a0.args else None
+                key_expr = tup.elts[0] if isinstance(tup, ast.Tuple) and tup.elts else None
+            else:
+                tup = a0.targets[0]  # type: ignore
+                key_expr = a0.targets[0].slice  # type: ignore
             target = loop.target
             pname = None
             if isinstance(target, ast.Tuple) and len(target.elts) == 2 and isinstance(target.elts[1], ast.Tuple) and isinstance(target.elts[1].elts[0], ast.Name):
                 pname = target.elts[1].elts[0].id
-            keyed = isinstance(tup, ast.Tuple) and pname is not None and any(isinstance(x, ast.Name) and x.id == pname for x in ast.walk(tup.elts[0]))
+            keyed = key_expr is not None and pname is not None and any(isinstance(x, ast.Name) and x.id == pname for x in ast.walk(key_expr))
             if keyed:
                 rep.ok("C13.R3", f.qname, desc + ", keyed by the parameter's own name", f.loc(a0))
             else:
-                rep.bad("C13.R3", f.qname, "pairs are keyed by the parameter's own name", f.loc(a0), [f"appended `{unparse(tup, 60)}`"], "pair-key", what="argument hashes are not keyed by parameter name")
+                rep.bad("C13.R3", f.qname, "pairs are keyed by the parameter's own name", f.loc(a0), [f"recorded `{unparse(tup, 60)}`"], "pair-key", what="argument hashes are not keyed by parameter name")
         else:
             rep.bad("C13.R3", f.qname, desc, f.loc(loop), witness_path(cfg, f, p), "skip-param", what="a parameter can be left out of the binding")
     rep.floor("C13.R2", n2, 6)
